@@ -3,8 +3,8 @@ from fractions import Fraction
 from .. import bb, chain as K, gen_chain as GC, gen_history as GH
 
 NAMESPACE = "Rbp.Props.C15"
-REQUIRED = ["mean_exact"]
-LEAN_FILES = ["Rbp/Model/Callbacks.lean", "Rbp/Model/Run.lean"]
+REQUIRED = ["counts_volume_fees_spec", "mean_exact", "biggest_first_on_ties", "fee_rule", "reward_halving"]
+LEAN_FILES = ["Rbp/Model/Callbacks.lean", "Rbp/Model/Run.lean", "Rbp/Proofs/Stats.lean"]
 RULE = ("black-box `simplestats` vs the whole-program Lean model: every integer figure compared exactly; every printed float p with d decimals must satisfy |p - q| <= 0.5*10^-d (+1e-12 relative) for the model's exact rational q "
         "(floats are never compared as text); the type table compared as a set (count, first height, first txid) and its shares numerically. Chains: all script types, non-monotonic timestamps, ties for both maxima, coinbases above/below/at the subsidy, "
         "heights across the 210000 halving boundary (sparse indexes), size prefixes and timestamp gaps whose sums exceed 2^32 (the size prefix is not validated, so 3 blocks with prefix 0x90000000 suffice). Hook `mean` on u32 lists incl. sums beyond 2^32, hook `basereward`. "
